@@ -615,36 +615,60 @@ def run_ledger(ctx, focus, res=None):
             lines = chain.patch(horizon=-1, interval=6, timespan=6 * 120)
         else:
             lines = chain.patch(horizon=2)          # blocks on both sides of the horizon
-        keys = chain.Keys(rng, 5)
-        use_custom = (ti % 2 == 1)
-        genesis = chain.custom_genesis(keys, target=bytes([0x3f]) + b"\xff" * 31) if use_custom else None
-        tree = chain.Tree(rng, keys, genesis=genesis)
-        # an output paying a key that is not a curve point (spendable by nobody; class bad_curve_point)
-        tree.grow(rng.randrange(5, 12), fork_prob=0.35)
-        sp = tree.spendable(tree.cs.current_chain_hash)
-        if sp:
-            r, o = sp[0]
-            if o.value > 10:
-                tx = chain.make_tx(keys, tree.utxo(tree.cs.current_chain_hash), [r],
-                                   [(o.value - 10, 0), (5, chain.GARBAGE_KEYS[0]), (5, chain.GARBAGE_KEYS[1])])
-                tree.extend(txs=[tx])
-        tree.grow(rng.randrange(4, 10), fork_prob=0.4)
-        if cfg == 1:
-            # a side branch that diverges before the start of a retarget period and runs up to the next boundary, with
-            # timestamps that differ from the main chain's: the boundary block on the branch that is not the head must
-            # get the target prescribed by its own ancestors
-            base = tree.blocks[min(2, len(tree.blocks) - 1)]
-            mainh = tree.cs.head().height
-            I = consensus.BLOCKS_BETWEEN_TARGET_READJUSTMENT
-            goal = ((base.height // I) + 2) * I - 1          # last block before a boundary, a full period past the fork
-            while tree.cs.head().height < goal + 2:
-                tree.extend(n_tx=0, dt=rng.randrange(100, 140))
-            h = base.hash()
-            for _ in range(goal - base.height):
-                h = tree.extend(h, n_tx=0, dt=rng.randrange(20, 60)).hash()
-            deep_side_tip = h
-        else:
-            deep_side_tip = None
+        for attempt in range(6):
+            rivals_made = False
+            keys = chain.Keys(rng, 5)
+            use_custom = (ti % 2 == 1)
+            genesis = chain.custom_genesis(keys, target=bytes([0x3f]) + b"\xff" * 31) if use_custom else None
+            tree = chain.Tree(rng, keys, genesis=genesis)
+            # an output paying a key that is not a curve point (spendable by nobody; class bad_curve_point)
+            tree.grow(rng.randrange(5, 12), fork_prob=0.35)
+            sp = tree.spendable(tree.cs.current_chain_hash)
+            if sp:
+                r, o = sp[0]
+                if o.value > 10:
+                    tx = chain.make_tx(keys, tree.utxo(tree.cs.current_chain_hash), [r],
+                                       [(o.value - 10, 0), (5, chain.GARBAGE_KEYS[0]), (5, chain.GARBAGE_KEYS[1])])
+                    tree.extend(txs=[tx])
+            tree.grow(rng.randrange(4, 10), fork_prob=0.4)
+            if cfg == 1:
+                # a side branch that diverges before the start of a retarget period and runs up to the next boundary, with
+                # timestamps that differ from the main chain's: the boundary block on the branch that is not the head must
+                # get the target prescribed by its own ancestors
+                base = tree.blocks[min(2, len(tree.blocks) - 1)]
+                mainh = tree.cs.head().height
+                I = consensus.BLOCKS_BETWEEN_TARGET_READJUSTMENT
+                goal = ((base.height // I) + 2) * I - 1          # last block before a boundary, a full period past the fork
+                while tree.cs.head().height < goal + 2:
+                    tree.extend(n_tx=0, dt=rng.randrange(100, 140))
+                h = base.hash()
+                for _ in range(goal - base.height):
+                    h = tree.extend(h, n_tx=0, dt=rng.randrange(20, 60)).hash()
+                deep_side_tip = h
+            else:
+                deep_side_tip = None
+            through_store = (not use_custom) and (ti % 4 == 2 or (ctx.thorough and ti % 4 == 0))
+            if through_store:
+                # two competing blocks that spend one and the same output in different transactions, and more blocks on each
+                tip = tree.cs.current_chain_hash
+                sp_ = tree.spendable(tip)
+                if sp_:
+                    r_, o_ = sp_[-1]
+                    u_ = tree.utxo(tip)
+                    ta = chain.make_tx(keys, u_, [r_], [(o_.value, 1)])
+                    tb = chain.make_tx(keys, u_, [r_], [(o_.value, 2)])
+                    a_ = tree.extend(tip, txs=[ta])
+                    b_ = tree.extend(tip, txs=[tb])
+                    tree.extend(a_.hash(), n_tx=0)
+                    tree.extend(b_.hash(), n_tx=0)
+                    tree.extend(b_.hash(), n_tx=0)
+                    rivals_made = True
+            ids_ = [t.hash() for b in tree.blocks for t in b.transactions]
+            if not through_store or len(set(ids_)) == len(ids_):
+                break
+            res.count("tree_rebuilt_because_one_transaction_is_in_two_blocks")
+        if rivals_made:
+            res.count("rival_spends_on_two_branches")
         res.count("config:%s" % ["production", "retarget-6", "horizon-2"][cfg])
         res.count("blocks_in_trees", len(tree.blocks))
         cr = Crafter(tree)
@@ -652,13 +676,56 @@ def run_ledger(ctx, focus, res=None):
         # model: load the tree
         ops = list(lines) + ["new t"]
         impl = ["ok"] * len(ops)
-        ops.append("addnv t t " + hx(tree.blocks[0].serialize()))
-        impl.append("ok")
         base = CoinState.empty().add_block_no_validation(tree.blocks[0])
         for b in tree.blocks[1:]:
+            base = base.add_block_no_validation(b)
+        model_order = list(tree.blocks)
+        tx_ids = [t.hash() for b in tree.blocks for t in b.transactions]
+        if through_store and len(set(tx_ids)) == len(tx_ids):
+            # a restart: the node's chain state as rebuilt from its block store (every block written, in a few flushes; the
+            # file reopened; blocks read back and applied the way the node's start-up does). Not done when one transaction
+            # occurs in two blocks of the tree (known finding D2 of the store).
+            import os as _os
+            import skepticoin.blockstore as _bs
+            path = _os.path.join(_os.getcwd(), "ledger_restart_%d.db" % ti)
+            if _os.path.exists(path):
+                _os.remove(path)
+            st_ = _bs.BlockStore(path)
+            todo = tree.blocks[1:]
+            while todo:
+                k_ = rng.randrange(1, 5)
+                for b in todo[:k_]:
+                    st_.add_block_to_buffer(b)
+                st_.flush_blocks_to_disk()
+                todo = todo[k_:]
+            st_.close()
+            st_ = _bs.BlockStore(path)
+            reloaded = CoinState.empty()
+            read_ids = []
+            try:
+                for b in st_.read_blocks_from_disk():
+                    reloaded = reloaded.add_block_no_validation(b)
+                    read_ids.append(b.hash())
+            except Exception as e:
+                res.violations.append({"kind": "the chain state cannot be rebuilt from the block store after a restart: %r" % e,
+                                       "tree": [b.serialize().hex() for b in tree.blocks]})
+                reloaded = None
+            st_.close()
+            _os.remove(path)
+            if reloaded is not None:
+                # (which of several equally high tips is the head depends on the order of arrival, which a restart changes:
+                # the head is left out of this comparison, and the model is given the blocks in the order read back)
+                by_id = {b.hash(): b for b in tree.blocks}
+                model_order = [by_id[i] for i in read_ids if i in by_id] + [b for b in tree.blocks if b.hash() not in set(read_ids)]
+                if chain.state_digest(reloaded).split(" ", 1)[1] != chain.state_digest(base).split(" ", 1)[1]:
+                    res.violations.append({"kind": "after a restart the chain state rebuilt from the block store (unspent outputs, "
+                                                   "balances, tips or head) differs from the state before it",
+                                           "tree": [b.serialize().hex() for b in tree.blocks]})
+                base = reloaded
+                res.count("state_rebuilt_from_store")
+        for b in model_order:
             ops.append("addnv t t " + hx(b.serialize()))
             impl.append("ok")
-            base = base.add_block_no_validation(b)
         ops.append("digest t full")
         impl.append(chain.state_digest(base))
         cands = []
